@@ -5,7 +5,7 @@ E: TLC checks Position.tla for every parameter value of each configuration: the 
    text, lexer column -> file column, bare `if:` condition, glob column, node position of keys / values) gives
    exactly the TRUTH read off the rendered text (Exact), the truth moves by exactly k when k blanks are put in
    front of the construct or k lines above it (ShiftLaw), and lies inside the file (InFile).
-G: every state of these runs is dumped: diagnostic class (catalogue of 98 classes: lexer / parser / semantic /
+G: every state of these runs is dumped: diagnostic class (catalogue of 102 classes: lexer / parser / semantic /
    untrusted / availability errors inside ${{ }} and bare `if:` conditions, unknown / duplicate keys, value errors
    of ids, shell names, permissions, runner labels, cron, events, matrix, needs, actions ..., characters of filter
    patterns) x placement (slot, quoting, block / flow, indentation unit, sequence indentation, nesting depth,
@@ -53,7 +53,7 @@ PLANS = {
     ],
 }
 
-SLOT_SITE = {'ifb': 'if-cond-bare', 'ifw': 'if-cond-wrapped', 'matrix': 'matrix-value', 'env': 'env-value',
+SLOT_SITE = {'ifb': 'if-cond-bare', 'jobifb': 'if-cond-bare', 'ifw': 'if-cond-wrapped', 'matrix': 'matrix-value', 'env': 'env-value',
              'runname': 'run-name', 'stepname': 'step-name', 'run': 'run-script', 'with': 'with-input',
              'timeout': 'timeout-minutes', 'filter': 'filter-value', 'types': 'activity-type-value',
              'matrixdup2': 'matrix-value'}      # site = code path: both matrix slots go through checkRawYAMLString
